@@ -14,7 +14,7 @@ import (
 
 func init() {
 	Registry["C07"] = Set{
-		Explanation: "Decides structural clauses of request/response correlation: Q1 every synchronous request mints a fresh reference with MakeRef and the same reference value is given to the routed request and to the wait; Q2 in the wait, the payload of a received response is used only on the edge where its reference equals the awaited one, and the mismatch edge goes back to the receive (late replies are dropped, the wait continues); the wait is bracketed by the Running<->WaitResponse transitions; Q3 every reply site in the behaviour loops and in the meta handler passes the From and the Ref of the very mailbox message whose handler produced the result; Q4 RouteSendResponse / RouteSendResponseError hand the reply over with a non-blocking send carrying the caller's reference and report ErrResponseIgnored on the default arm; Q5 the response channel is received from only in the wait function and sent to only in those two functions. Uniqueness of references is C06.G2.",
+		Explanation: "Decides structural clauses of request/response correlation: Q1 every synchronous request mints a fresh reference with MakeRef and the same reference value is given to the routed request and to the wait; Q2 in the wait, the payload of a received response is used only on the edge where its reference equals the awaited one, and the mismatch edge goes back to the receive (late replies are dropped, the wait continues); the wait is bracketed by the Running<->WaitResponse transitions; Q3 every reply site in the behaviour loops and in the meta handler passes the From and the Ref of the very mailbox message whose handler produced the result; Q4 RouteSendResponse / RouteSendResponseError hand the reply over with a non-blocking send carrying the caller's reference and report ErrResponseIgnored on the default arm; Q5 the response channel is received from only in the wait function and sent to only in those two functions. Uniqueness of references is C06.G2. Added while probing: Q6 the pool dispatcher hands a request to one worker only (no Forward reachable after a successful hand-over).",
 		NotDecided: []string{
 			"at-most-once presentation of a request to the callee (consumer side of the mailbox)",
 			"remote correlation framing (C12 R1/R4)",
